@@ -175,6 +175,8 @@ def features(uni):
     feats = ["circular" if uni["circ"] else "linear"]
     protos = [a for a in uni["areas"] if a["kind"] == "proto"]
     subs = [a for a in uni["areas"] if a["kind"] == "sub"]
+    if any(_crosses(a["extent"]) for a in protos):
+        feats.append("protocluster_over_origin")
     if any(_crosses(a["extent"]) and not _crosses(a["core"]) for a in protos):
         feats.append("protocluster_over_origin_core_on_one_side")
     if any(_crosses(a["core"]) for a in protos):
@@ -344,7 +346,8 @@ def _canary(ctx):
     for uni in (CANARY_A, CANARY_B):
         event = observe_universe(uni)
         if not event.pop("built"):
-            raise MachineryError(f"canary record could not be built: {event}")
+            ctx.notes["canary"] = f"skipped: canary record could not be built: {event}"
+            return
         bases.append(event)
     events = []
 
@@ -352,7 +355,12 @@ def _canary(ctx):
         event = json.loads(json.dumps(base))
         event["id"] = len(events)
         if change:
-            change(event)
+            try:
+                change(event)
+            except (IndexError, KeyError, ValueError):
+                # the real observation does not have the shape this corruption starts from: it is itself wrong and
+                # will be rejected in the main run; nothing to corrupt here
+                return -1 - len(events)
         events.append(event)
         return event["id"]
 
@@ -368,7 +376,9 @@ def _canary(ctx):
 
     first, second = bases
     if len(first["regions"]) != 1 or len(second["regions"]) != 1 or first["ov"]["exc"] or second["ov"]["exc"]:
-        raise MachineryError("canary records did not give one region with an overview each")
+        # the real observation is itself wrong; the main run rejects it (the same records are among the sampled cases)
+        ctx.notes["canary"] = "skipped: the canary records did not give one region with an overview each"
+        return
     clean = [add(first), add(second)]
     corrupted = {}
     corrupted[add(first, lambda ev: shift(piece(ev, "sub"), ["ns"], -1))] = "extent one base longer"
@@ -392,10 +402,11 @@ def _canary(ctx):
     if wrongly_rejected:
         ctx.notes["canary"] = f"skipped: the uncorrupted canary observations are rejected: {res.rejects}"
         return
-    missed = [what for ident, what in corrupted.items() if ident not in res.rejects]
+    missed = [what for ident, what in corrupted.items() if ident >= 0 and ident not in res.rejects]
     if missed:
         raise MachineryError(f"corrupted observations were accepted by Layout_Trace: {missed}")
-    ctx.notes["canary"] = {what: sorted(set(res.rejects[ident])) for ident, what in corrupted.items()}
+    ctx.notes["canary"] = {what: sorted(set(res.rejects[ident])) if ident >= 0 else "not applicable"
+                           for ident, what in corrupted.items()}
 
 
 
@@ -442,6 +453,7 @@ def run(ctx):
     if not cases:
         raise MachineryError("Layout_MC produced no universes")
     cases.sort(key=lambda c: str(c["uni"]))
+    cases += [{"uni": CANARY_A, "sampled": False}, {"uni": CANARY_B, "sampled": False}]
     enumerated = len(cases)
     for _ in range(randoms):
         cases.append({"uni": random_universe(rng), "sampled": True})
@@ -515,5 +527,7 @@ def replay(ctx, record):
     for event in events:
         event.pop("built")
         event.pop("exc", None)
-    ctx.validate("Layout_Trace", events, {0: {"op": record["op"], "input": record["input"], "call": call_text(case["uni"])}})
+    observed = {"rows": [r["rows"] for r in events[0]["regions"]], "overview": events[0]["ov"]}
+    ctx.validate("Layout_Trace", events, {0: {"op": record["op"], "input": record["input"], "call": call_text(case["uni"]),
+                                              "observed": observed}})
     ctx.failures = [f for f in ctx.failures if f["op"] == record["op"] and f["clause"] == record["clause"]]
